@@ -164,7 +164,7 @@ func c20(r *core.Report) {
 		},
 	})
 	crashIndex(r, csAll, 8)
-	crashLib(r, csAll, 2)
+	crashLib(r, csAll, 3)
 	lg := map[*ssa.Function]string{}
 	crashRec(r, csAll, func(site ssa.CallInstruction, callee *ssa.Function) string {
 		if w, ok := lg[callee]; ok {
@@ -172,7 +172,7 @@ func c20(r *core.Report) {
 		}
 		lg[callee] = loaderRefGuard(p, callee)
 		return lg[callee]
-	})
+	}, cyclicModelTypes(p))
 	crashNilPhase(r, csLoad, true, false, 10, "-load")
 	crashNilPhase(r, csPost, false, true, 30, "-post")
 	_ = sort.Strings
@@ -969,4 +969,112 @@ func c20Inv(r *core.Report) {
 			}
 		}
 	})
+}
+
+// cyclicModelTypes: the document-model types that can lie on a pointer cycle of a loaded document:
+// the members of non-trivial strongly connected components of the containment graph of package
+// openapi3's model (fields through pointers, slices, maps and embedding). Returns a predicate on
+// parameter types (pointer to, or collection of, such a type).
+func cyclicModelTypes(p *core.Prog) func(t types.Type) bool {
+	model := p.ModelTypes("openapi3", "T")
+	in := map[*types.Named]bool{}
+	for _, n := range model {
+		in[n] = true
+	}
+	succ := map[*types.Named][]*types.Named{}
+	var targets func(t types.Type, depth int, out *[]*types.Named)
+	targets = func(t types.Type, depth int, out *[]*types.Named) {
+		if depth > 8 {
+			return
+		}
+		switch x := types.Unalias(t).(type) {
+		case *types.Pointer:
+			targets(x.Elem(), depth+1, out)
+		case *types.Slice:
+			targets(x.Elem(), depth+1, out)
+		case *types.Map:
+			targets(x.Elem(), depth+1, out)
+		case *types.Named:
+			if in[x.Origin()] {
+				*out = append(*out, x.Origin())
+			}
+			switch x.Underlying().(type) {
+			case *types.Map, *types.Slice, *types.Pointer:
+				targets(x.Underlying(), depth+1, out)
+			}
+		}
+	}
+	for _, n := range model {
+		switch u := n.Underlying().(type) {
+		case *types.Struct:
+			for i := 0; i < u.NumFields(); i++ {
+				var out []*types.Named
+				targets(u.Field(i).Type(), 0, &out)
+				succ[n] = append(succ[n], out...)
+			}
+		default:
+			var out []*types.Named
+			targets(u, 0, &out)
+			succ[n] = append(succ[n], out...)
+		}
+	}
+	// Tarjan
+	idx, low := map[*types.Named]int{}, map[*types.Named]int{}
+	on := map[*types.Named]bool{}
+	var stack []*types.Named
+	cyc := map[*types.Named]bool{}
+	counter := 0
+	var strong func(v *types.Named)
+	strong = func(v *types.Named) {
+		counter++
+		idx[v], low[v] = counter, counter
+		stack = append(stack, v)
+		on[v] = true
+		self := false
+		for _, w := range succ[v] {
+			if w == v {
+				self = true
+			}
+			if idx[w] == 0 {
+				strong(w)
+				if low[w] < low[v] {
+					low[v] = low[w]
+				}
+			} else if on[w] && idx[w] < low[v] {
+				low[v] = idx[w]
+			}
+		}
+		if low[v] == idx[v] {
+			var comp []*types.Named
+			for {
+				w := stack[len(stack)-1]
+				stack = stack[:len(stack)-1]
+				on[w] = false
+				comp = append(comp, w)
+				if w == v {
+					break
+				}
+			}
+			if len(comp) > 1 || self {
+				for _, w := range comp {
+					cyc[w] = true
+				}
+			}
+		}
+	}
+	for _, n := range model {
+		if idx[n] == 0 {
+			strong(n)
+		}
+	}
+	return func(t types.Type) bool {
+		var out []*types.Named
+		targets(t, 0, &out)
+		for _, n := range out {
+			if cyc[n] {
+				return true
+			}
+		}
+		return false
+	}
 }
